@@ -181,6 +181,14 @@ func splitBase(p Poly) (base string, k int64, flipped bool) {
 
 // CondOf converts a boolean SSA value into a Cond.
 func (n *Normer) CondOf(v ssa.Value) *Cond {
+	if n.FoldTables {
+		if tv, ok := n.tableVal(v, 0); ok && tv != nil && tv.Kind == VBool {
+			if tv.B {
+				return cTrue
+			}
+			return cFalse
+		}
+	}
 	switch x := v.(type) {
 	case *ssa.Const:
 		if x.Value != nil && x.Value.String() == "true" {
@@ -265,7 +273,7 @@ func (n *Normer) CondOf(v ssa.Value) *Cond {
 		// arguments substituted (extracting a predicate into a helper does not change the form)
 		if _, bound := n.Bind[v]; !bound {
 			if cal := x.Common().StaticCallee(); cal != nil && isRepoFunc(cal) && cal.Blocks != nil && n.depth < n.MaxInline &&
-				cal.Signature.Results().Len() == 1 && isBoolType(cal.Signature.Results().At(0).Type()) && pureLoopFree(cal) {
+				cal.Signature.Results().Len() == 1 && isBoolType(cal.Signature.Results().At(0).Type()) && !n.NoInline[n.P.FuncName(cal)] && pureLoopFree(cal) {
 				env := map[ssa.Value]Poly{}
 				for i, p := range cal.Params {
 					if i < len(x.Common().Args) {
@@ -614,9 +622,8 @@ func pureLoopFree(fn *ssa.Function) bool {
 			case *ssa.Store, *ssa.Send, *ssa.Go, *ssa.Defer, *ssa.MapUpdate, *ssa.Panic:
 				return false
 			case *ssa.Call:
-				if _, ok := x.Common().Value.(*ssa.Builtin); !ok {
-					return false
-				}
+				// calls are allowed: their results stay uninterpreted atoms of the truth condition
+				_ = x
 			}
 		}
 	}
